@@ -218,8 +218,12 @@ HeaderError(c, s, pats) ==
 
 \* refusal of a parsable header (value too large, memory shortage): F13
 Refusal(c, s, F, pats) ==
-  IF "F13" \in F \/ ~HasBody(c) \/ BodyGot(c) = 0
+  IF "F13" \in F \/ ~HasBody(c)
     THEN {HeaderError(c, s, pats)}
+  ELSE IF BodyGot(c) = 0
+    \* nothing of the announced body arrived (yet): one error reply; the repaired server (fix F13) closes the
+    \* connection after a refusal for size whether or not body bytes follow
+    THEN {HeaderError(c, s, pats), Closing(<<One(pats)>>, s)}
     ELSE \* conforming: one error reply, then the announced body is swallowed, or the connection is closed
          {IF Cut(c) THEN Ending(Plain(<<One(pats)>>, s)) ELSE Plain(<<One(pats)>>, s),
           Closing(<<One(pats)>>, s)}
